@@ -12,7 +12,7 @@ import ast
 
 from ..cfg import cfg_of
 from ..core import AnalysisError
-from ..facts import loc
+from ..facts import class_const, loc
 from ..pathrules import calls_named
 from ..src import Repo, call_name, deep_strip, receiver, walk_no_nested
 
@@ -267,7 +267,7 @@ def check(ctx):
     from .c02 import shape_obligations, shape_of
     T = tables(repo)
     c = repo.cls("GeckoConstants")
-    DEV = repo.fold(c.consts["DEVICES"], c.mod, c)
+    DEV = class_const(repo, "GeckoConstants", "DEVICES")
     wanted = {f"UD{d}".upper() for d in DEV} | {"ECONACTIVE", "TEMPUNITS", "SETPOINTG"}
     shapes = {}
     n_items = 0
@@ -287,6 +287,10 @@ def check(ctx):
             if rule in ("R1", "R2", "R5"):
                 ctx.ob("R7", f"{rule}::{key}", ok, "command write is not exact: " + msg, where,
                        sample={"rule": "R7", "item": f"{it.module.stem}::{it.key}", "obligation": key} if key.endswith("sync::O1-isolation") else None)
+    ctx.rule("R8", "command-range sequence numbers: the counter both stacks draw SPACK sequences from issues exactly 192..255 for kind True, never a protocol-range value (C16's exhaustive fixpoint on both implementations; the draw kind per command site is R5)")
+    from . import c16 as _c16
+    for impl in _c16.IMPLS:
+        _c16.fixpoint(ctx.borrowed("R8", "C16", only=("R1", "R2")), repo, impl, ctx.tier)
     ctx.note("NOT decided: closed loop with a responding spa (the write applied, echoed and read back) - composition of C02, C04, C05.")
 
 
